@@ -41,14 +41,14 @@ Lemma recover_block_ahead g c a extra j :
   recover_block g c = Some (set_bf c {| ents := bl a; junk := 0 |}).
 Proof.
   intros [Hnd Hidx Hbt Hne] Hbf Hj Hfresh HL. unfold recover_block.
-  rewrite Hbf, trim_tail by (unfold BSZ in *; lia). cbv zeta.
+  destruct (last (bl a)) as [t|] eqn:Et; [|apply last_None in Et; contradiction].
+  rewrite Hbf, trim_tail by (unfold BSZ in *; lia). rewrite Hbt. cbn [reset_if_no_tip]. cbv zeta.
   set (L := alen (bl a)) in *. set (e := alen extra) in *.
   pose proof (alen_pos _ Hne) as HLp. fold L in HLp. pose proof (alen_nonneg extra) as Hep. fold e in Hep.
   assert (Hfs : fsize BSZ (bf (set_bf c {| ents := bl a ++ extra; junk := 0 |})) = (L + e) * BSZ).
   { cbn. unfold fsize, flen. cbn. rewrite app_length. unfold L, e, alen. lia. }
   rewrite Hfs. replace ((L + e) * BSZ =? 0) with false by (symmetry; apply Z.eqb_neq; unfold BSZ; lia).
   unfold tip_height. cbn [set_bf btip idx bf]. rewrite Hbt.
-  destruct (last (bl a)) as [t|] eqn:Et; [|apply last_None in Et; contradiction].
   assert (Hat : at_h (bl a) (L - 1) = Some t) by (rewrite <- last_at_h; [exact Et|exact Hne|fold L; lia]).
   pose proof (proj2 (Hidx t (L - 1)) Hat) as Hit. rewrite Hit.
   replace ((L + e) * BSZ / BSZ) with (L + e) by (unfold BSZ; rewrite Z.div_mul; lia).
@@ -96,14 +96,15 @@ Lemma recover_filter_ahead gfh g c a extra j :
   recover_filter gfh g c = Some (set_ff c {| ents := fl a; junk := 0 |}).
 Proof.
   intros [Hidx Hne Hle Hft Hlim] Hff Hj Hdis HL. unfold recover_filter.
-  rewrite Hff, trim_tail by (unfold FSZ in *; lia). cbv zeta.
   set (L := alen (fl a)) in *. set (e := alen extra) in *.
   pose proof (alen_pos _ Hne) as HLp. fold L in HLp. pose proof (alen_nonneg extra) as Hep. fold e in Hep.
+  destruct (at_h_is_Some (bl a) (L - 1)) as [t Ht]; [lia|lia|]. rewrite Ht in Hft.
+  rewrite Hff, trim_tail by (unfold FSZ in *; lia). rewrite Hft. cbn [reset_if_no_tip]. cbv zeta.
+  unfold reconcile_filter.
   assert (Hfs : fsize FSZ (ff (set_ff c {| ents := fl a ++ extra; junk := 0 |})) = (L + e) * FSZ).
   { cbn. unfold fsize, flen. cbn. rewrite app_length. unfold L, e, alen. lia. }
   rewrite Hfs. replace ((L + e) * FSZ =? 0) with false by (symmetry; apply Z.eqb_neq; unfold FSZ; lia).
   unfold tip_height. cbn [set_ff ftip idx ff]. rewrite Hft.
-  destruct (at_h_is_Some (bl a) (L - 1)) as [t Ht]; [lia|lia|]. rewrite Ht.
   rewrite (proj2 (Hidx t (L - 1)) Ht).
   replace ((L + e) * FSZ / FSZ) with (L + e) by (unfold FSZ; rewrite Z.div_mul; lia).
   replace (u32 (L + e - 1)) with (L + e - 1) by (unfold u32; rewrite Z.mod_small; unfold U32, LIMIT in *; lia).
